@@ -3,5 +3,5 @@ sys.path.insert(0,os.path.dirname(os.path.dirname(os.path.abspath(__file__))))
 from jobs_lib import vf,blk,other
 def jobs(tier):
     return vf(tier,'C10')+other('C17',tier,lambda j:j.name=='rd-pack-w1-s0-be0')
-CLAIM={'text':'Bounded model checking of the only code that observes delivery granularity (_get_data/_get_next_page/_seek_helper): every read-size schedule (0..2048 bytes per call, any errno) is forwarded byte-exactly to the framing layer, offsets advance by exactly the bytes skipped/consumed; requested read lengths only bound the frames returned (rd-pack).',
+CLAIM={'text':'Bounded model checking of the only code that observes delivery granularity (_get_data/_get_next_page/_seek_helper): every read-size schedule (0..2048 bytes per call, any errno) is forwarded byte-exactly to the framing layer, offsets advance by exactly the bytes skipped/consumed; bytes the application read ahead (initial/ibytes of ov_open_callbacks/ov_test_callbacks) are handed to the sync layer once with their exact count and are NOT accounted as consumed, so every offset recorded at open is independent of how much was pre-read (F-open); the chain tables built at open take each serial number from the header fetch of its own link (bisect-step); requested read lengths only bound the frames returned (rd-pack); raw seek keeps the packets of a first-and-last page (raw-seek).',
  'note':'Trusted: libogg sync layer as contract stub with ghost byte accounting (its reassembly is not vorbis code). Equality of the three access paths end-to-end is derived (same packets reach the same decoder), not executed. <=4 events per call.'}
